@@ -36,7 +36,24 @@ ASSUMPTIONS = [
 FLOORS = {"same-key-change": 0.2, "ordered-move": 0.04, "removal+addition": 0.5, "rewrite-reset": 0.04, "flat-stream": 0.08, "menu-stream": 0.02}
 
 
+JUN_STMTS = {"system": [("host-name", "r1"), ("time-zone", "UTC"), ("domain-name", "example.net")],
+             "snmp": [("location", '"dc1"'), ("contact", '"noc"'), ("description", '"edge"')]}
+
+
+def _gen_annot(rnd):
+    """juniper annotations ('/* text */' above a statement) over the shipped juniper rulebook: the statements stay, their annotations
+    come, go and change; one plain statement changes its value so that set/delete lines stand between the annotation commands"""
+    stmts = []
+    for blk, items in JUN_STMTS.items():
+        for name, val in items:
+            if rnd.random() < 0.8:
+                stmts.append([blk, name, val, rnd.choice([None, None, "old " + name, "keep " + name]), rnd.choice([None, "new " + name, "keep " + name])])
+    return {"kind": "jun-annot", "vendor": "juniper", "stmts": stmts, "ntp_old": rnd.choice(["10.0.0.1", "10.0.0.2"]), "ntp_new": rnd.choice(["10.0.0.1", "10.0.0.3"])}
+
+
 def _gen_from(rnd):
+    if rnd.random() < 0.04:
+        return _gen_annot(rnd)
     vendor = rnd.choice(VENDORS)
     # (a flat-stream device has no 'entering a block again replaces its content': %rewrite objects exist on block-structured vendors only)
     rules = RL.gen_rules(rnd, opts={"rewrite": False} if (vendor in FLAT or vendor in MENU) else None)
@@ -204,7 +221,60 @@ def _menu_paths(vendor, pt, rev, labels, det):
     return [list(p) for p in walked]
 
 
+def _check_annot(case):
+    from annet.annlib.netdev.views.hardware import HardwareView
+    from annet.annlib.tabparser import parse_to_tree
+    from vf.model import sut
+    hw = HardwareView("Juniper MX960", "")
+    f = sut.registry().match(hw).make_formatter()
+
+    def text(side):
+        out = []
+        for blk in JUN_STMTS:
+            rows = [x for x in case["stmts"] if x[0] == blk]
+            if not rows:
+                continue
+            out.append(blk + " {")
+            for _, name, val, co, cn in rows:
+                c = co if side == 0 else cn
+                if c is not None:
+                    out.append("    /* %s */" % c)
+                out.append("    %s %s;" % (name, val))
+            out.append("}")
+        out += ["system {", "    name-server %s;" % (case["ntp_old"] if side == 0 else case["ntp_new"]), "}"]
+        return "\n".join(out) + "\n"
+    old, new = parse_to_tree(text(0), f.split), parse_to_tree(text(1), f.split)
+    d, pt = sut.diff_and_patch_hw(hw, old, new)
+    stream = [k[0] for k in sut.registry().match(hw).make_formatter(indent="").cmd_paths(pt).keys()]
+    det = {"old_text": text(0), "new_text": text(1), "stream": stream}
+    got, i = [], 0
+    while i < len(stream):
+        line = stream[i]
+        if line.startswith("edit "):
+            if i + 2 >= len(stream) or not stream[i + 1].startswith("annotate ") or stream[i + 2] != "exit":
+                raise Violation("annotation-commands", "an annotation is set by three lines - edit <block>, annotate <statement> \"text\", exit -; "
+                                "the stream has %r at position %d: %r" % (stream[i:i + 3], i, stream), det)
+            w = stream[i + 1].split(" ", 2)
+            got.append((line[5:], w[1], w[2].strip('"')))
+            i += 3
+        elif line.startswith("annotate ") or line == "exit":
+            raise Violation("annotation-commands", "%r at position %d is not inside an edit / annotate / exit triple: %r" % (line, i, stream), det)
+        else:
+            i += 1
+    want = [(blk, name, cn or "") for blk, name, val, co, cn in case["stmts"] if co != cn]
+    if sorted(got) != sorted(want):
+        raise Violation("annotation-commands", "annotations to set: %r, the stream sets %r" % (sorted(want), sorted(got)), det)
+    labels = ["jun-annotations", "vendor:juniper"]
+    if len(want) >= 2:
+        labels.append("two-annotation-changes")
+    if len({b for b, _, _ in want}) < len(want):
+        labels.append("two-annotations-in-one-block")
+    return labels
+
+
 def check(case):
+    if case.get("kind") == "jun-annot":
+        return _check_annot(case)
     from vf.model import sut
     vendor = case["vendor"]
     rules = case["rules"]
@@ -263,4 +333,4 @@ def check(case):
 
 
 def nontrivial(labels):
-    return "removal+addition" in labels or "depth>=2" in labels
+    return "removal+addition" in labels or "depth>=2" in labels or "two-annotation-changes" in labels
